@@ -228,10 +228,24 @@ func cmdCheck(args []string) int {
 		*tier = "quick"
 	}
 	t0 := time.Now()
-	// replay files of earlier runs of this property are stale
+	// replay files of earlier runs stay (somebody may still want to replay what
+	// an earlier run printed); only old ones and a surplus beyond 60 are removed
 	if old, _ := filepath.Glob(filepath.Join(verifDir, "replays", *prop+"-*.json")); len(old) > 0 {
+		type fi struct {
+			name string
+			mod  time.Time
+		}
+		var fis []fi
 		for _, f := range old {
-			os.Remove(f)
+			if st, err := os.Stat(f); err == nil {
+				fis = append(fis, fi{f, st.ModTime()})
+			}
+		}
+		sort.Slice(fis, func(i, j int) bool { return fis[i].mod.After(fis[j].mod) })
+		for i, f := range fis {
+			if i >= 60 || time.Since(f.mod) > 12*time.Hour {
+				os.Remove(f.name)
+			}
 		}
 	}
 	b, err := newBuilder(repoDir, filepath.Join(verifDir, "sim"))
